@@ -94,13 +94,13 @@ finding(["C14"], "F1", "tensor.numpyDtypes[Uint64]", "Uint64 is written as u8, w
 finding(["C14"], "F1", "tensor.numpyDtypes[Int32]", "GOARCH=386: Int32 is written as i4, which the reader maps to Int", "Int32->i4->Int", 43)
 finding(["C14"], "F1", "tensor.numpyDtypes[Uint32]", "GOARCH=386: Uint32 is written as u4, which the reader maps to Uint", "Uint32->u4->Uint", 43)
 finding(["C14"], "L1", "tensor.(*Dense).GobEncode@.Encode(&%data) ?$r.IsMaterializable()", "GobEncode of a view writes the whole storage window under the view's shape; GobDecode's sanity check rejects it (expected (3), got 7)", "without a test of $r.IsMaterializable()", 28)
-finding(["C14","C16"], "L1", "tensor.(*Dense).WriteNpy@for ($r.len() > %i) ?$r.RequiresIterator()", "WriteNpy emits Get(0..len) in storage order with fortran_order False: a column-major or transposed tensor is written as different data", "without a test of $r.RequiresIterator()", 18)
 finding(["C16","C20"], "L3", "tensor.(Float32Engine).Add@V. ⊨ $a.DataOrder().HasSameOrder($b.DataOrder())", "Float32Engine.Add discards prepDataVV's useIter and only tests RequiresIterator: row-major + column-major adds raw storage ([0 4 3 7 6 10])", "goal", 21)
 finding(["C16","C20"], "L3", "tensor.(Float64Engine).Add@V. ⊨ $a.DataOrder().HasSameOrder($b.DataOrder())", "Float64Engine.Add discards prepDataVV's useIter and only tests RequiresIterator: row-major + column-major adds raw storage ([0 4 3 7 6 10])", "goal", 21)
 finding(["C16"], "L3", "tensor.Copy@copyDense(%dt, %ts) ⊨ %ts.DataOrder().HasSameOrder(%dt.DataOrder())", "Copy between a column-major and a row-major tensor is a raw memcpy: [[0,1,2],[3,4,5]] becomes [0 3 1 4 2 5]", "goal", 18)
 finding(["C16"], "L4", "tensor.ToMat64@mat.NewDense( ?$t.DataOrder().IsColMajor()", "ToMat64 hands column-major storage to the row-major mat.Dense", "without a test of $t.DataOrder().IsColMajor()", 18)
 
 FIXED = [
+ {"property":"C14","commit":"484f8b3","rule":"L1","key":"tensor.(*Dense).WriteNpy@for ($r.len() > %i) ?$r.RequiresIterator()","what":"fixed: property=C14 484f8b3 WriteNpy emitted Get(0..len) in storage order under a header that declares C order: a column-major, sliced or lazily transposed tensor was read back as different data (DESIGN finding 18, WriteNpy part)"},
  {"property":"C08","commit":"865b98b","rule":"EC","key":"tensor.(StdEng).prepReduce#Reshape1","what":"fixed: property=C08 865b98b prepReduce dropped the error of reuse.Reshape(newShape...): a reuse tensor that cannot be reshaped (non-contiguous view) was reduced into with its old shape (DESIGN finding 23)"},
  {"property":"C19","commit":"6e5ad4a","rule":"T2","key":"tensor.reuseCheckShape#reuse","what":"fixed: property=C19 6e5ad4a reuseCheckShape returned a reuse tensor's transposeWith slice to the ints pool and left the field pointing at it: the slice was returned a second time by ReturnTensor/UT (DESIGN finding 12)"},
  {"property":"C19","commit":"f9f7dff","rule":"O3","key":"tensor.(*Dense).TensorMul(axesA), tensor.(*Dense).TensorMul(axesB), tensor.Contract(aAxes), tensor.Contract(bAxes)","what":"fixed: property=C19 f9f7dff TensorMul normalised negative axes in place in the caller's slices (and only after indexing the shape with them, so a negative axis panicked): axes are now resolved on copies before use (DESIGN finding 11)"},
